@@ -137,10 +137,10 @@ Theorem C04_scales_nonzero : forall n, In n all_names ->
 Proof. exact scales_nonzero. Qed.
 Print Assumptions C04_scales_nonzero.
 
-(* the defining factors (Units/Standards.v, 286 entries): 1 name = factor x SI
+(* the defining factors (Units/Standards.v, 289 entries, dyne included): 1 name = factor x SI
    base units exactly, for every entry whose name the table contains *)
 Theorem C04_standards : forall n f dims r,
-  In (n, f, dims) standards -> impl_entry n = Some r -> mem_str n known_standards = false ->
+  In (n, f, dims) standards -> impl_entry n = Some r ->
   exists q, impl_quantity n = Some q /\ hmap_eqb dims (q_dim q) = true /\ q_exact q = true
             /\ real_eqb f (q_scale q) = true.
 Proof. exact standards_hold. Qed.
